@@ -10,28 +10,28 @@ claimed = {
    note='Trusted: Go toolchain (native twin), testing/synctest quiescence detection, ThreadSanitizer, the channel model (validated on every run against the history compiled Go produced). Interleavings finer than one interpreted statement are only race-detected. Templates are fixed programs with seeded behaviour; Go picks among ready select cases itself (recorded, replay re-rolls).',
    technique='deterministic simulation: seeded parking scheduler in a synctest bubble + native twin + channel reference model + race detector'),
  'C06': dict(level='exploration', design='3.7',
-   text='Partial: decides the frame-recycling clause and closure sharing. Seeded histories of escape operations (closures and addresses of locals outliving their call, interleaved with frame-churning calls) are executed natively, interpreted with recycling disabled, and interpreted under a seeded allocator configuration (pool capacity 0/1/2/3/32, seeded drop-instead-of-recycle, every recycled frame poisoned so any stale read is wrong at once). The three event logs must be equal and no sentinel may be observed.',
-   note='One fixed template (escape patterns, every slot kind captured 3-6 frames down, compound assignment operators on captured places, re-entrant call sites of every arity); call-specialisation correctness over the space of signatures is a pure function of the program and is NOT decided. Trusted: Go toolchain (twin). The allocator seam only changes capacity/recycling decisions and the content of released frames.',
+   text='Partial: decides the frame-recycling clause and closure sharing. Seeded histories of escape operations (closures and addresses of locals outliving their call, interleaved with frame-churning calls) are executed natively, interpreted with recycling disabled, and interpreted under a seeded allocator configuration (pool capacity 0/1/2/3/32, seeded drop-instead-of-recycle, in three runs out of four every recycled frame poisoned so any stale read is wrong at once, otherwise recycled with its old content as shipped). The three event logs must be equal and no sentinel may be observed.',
+   note='One fixed template (escape patterns, every slot kind captured 3-6 frames down, compound assignment operators on captured places, re-entrant call sites of every arity, named-result returns, blank parameters, escaping addresses of parameters and receivers); call-specialisation correctness over the space of signatures is a pure function of the program and is NOT decided. Trusted: Go toolchain (twin). The allocator seam only changes capacity/recycling decisions and the content of released frames.',
    technique='deterministic simulation: allocator fault injection (pool capacity, drop, poison-on-free) + self-reference without recycling + native twin'),
  'C07': dict(level='exploration', design='3.6',
    text='Seeded defer/panic/recover call trees (one fixed universal template; every frame draws its defers, panics, recursion) executed natively and in the interpreter from one choice list, first fault-free and then with a panic injected at every fault point of the tree (enumerated per tree) with panic values of 6 dynamic types; the event logs (defer order, recovered values, results, escaping panic) must be equal event by event. Deferred arguments include structs, arrays and receivers modified after the defer statement. A separate battery covers deferred builtin calls (close, delete, copy, recover, print, panic; also after go).',
    note='Trusted: the Go toolchain as oracle. Excluded by documentation: recover inside compiled functions deferred by interpreted code, panic(nil), text of runtime-error panics. One fixed template: no syntactic variety.',
    technique='deterministic simulation: seeded fault plan (panic at every point) over a universal call tree + native twin, event-by-event'),
  'C12': dict(level='fault_enumeration', design='3.4',
-   text='Enumerated crash points: for each probe program a panic is injected before every executed statement (statement seam) and inside every compiled-function call, through every public entry path (Eval, Compile+RunExpr, ParseEvalPrint, DebugExpr) with debugger / trap-panic options varied, every third point (thorough: every point) repeated with an interrupt requested at the instant of the panic, plus pairs where the second panic lands while the first is being handled (thorough). After the aborted evaluation a fixed battery (defer order, recover in/outside defers, re-panic, named results, closures over globals, a goroutine, loops, recursion, a debug-stepped call with recorded stops, a direct call of an interpreted function value with a breakpoint) must give exactly what a fresh interpreter gives.',
-   note='The fault space is enumerated exhaustively for the 8 fixed probe programs only; other programs are not covered. Trusted: the fresh interpreter as reference. Side effects of aborted code are excluded by construction of the battery.',
+   text='Enumerated crash points: for each probe program a panic is injected before every executed statement (statement seam) and inside every compiled-function call, through every public entry path (Eval, Compile+RunExpr, ParseEvalPrint, DebugExpr) with debugger / trap-panic options varied, every compiled-call point repeated with a nested evaluation that panics and is recovered by the compiled function (the outer evaluation must finish undisturbed), every third point (thorough: every point) repeated with an interrupt requested at the instant of the panic, plus pairs where the second panic lands while the first is being handled (thorough). After the aborted evaluation a fixed battery (defer order, recover in/outside defers, re-panic, named results, closures over globals, a goroutine, loops, recursion, a debug-stepped call with recorded stops, a direct call of an interpreted function value with a breakpoint) must give exactly what a fresh interpreter gives.',
+   note='The fault space is enumerated exhaustively for the 9 fixed probe programs only; other programs are not covered. Trusted: the fresh interpreter as reference. Side effects of aborted code are excluded by construction of the battery.',
    technique='deterministic simulation: exhaustive single (and paired) panic-point enumeration through the statement seam + battery vs fresh interpreter'),
  'C13': dict(level='fault_enumeration', design='3.5',
    text='Enumerated interrupt delivery points: for 8 loop shapes Interp.Interrupt is delivered before every executed statement (from the evaluating goroutine, from another goroutine, doubled, from inside a compiled call, with Ctrl+C-enters-debugger, between evaluations). The executor must take the interrupt within 64 executed statements (else the seam aborts the run and reports it), the evaluation must end with the interrupt panic (or enter the debugger), the next evaluation must not see a stale flag, and the C12 battery must equal a fresh interpreter.',
    note='Runs without the race detector (the async flag store is an intentional benign race). Bound of 64 statements is a budget from the property text. Fixed loop shapes only.',
    technique='deterministic simulation: exhaustive interrupt-point enumeration through the statement seam + bounded-progress monitor + battery vs fresh interpreter'),
  'C14': dict(level='exploration', design='3.12',
-   text='Partial: decides pointer validity / aliasing across growth of the global slot arrays and in-order visibility. The growth chunk (16 values / 1024 integer slots as shipped: large enough that the reallocation path practically never runs) is a buggified tuning knob: per run it is replaced by 0/1/2/16 and 0/1/3/8, one run in 40 replays the shipped configuration with more than 1024 integer declarations. Seeded REPL histories (one top-level statement per evaluation: declarations of integer-slot and boxed kinds, address-taking, closures and functions capturing globals, writes directly / through pointers / through closures, bursts of further declarations, read-backs) are checked step by step against a sequential store model (cells, pointers and closures as references to cells); any internal error is a violation.',
+   text='Partial: decides pointer validity / aliasing across growth of the global slot arrays and in-order visibility. The growth chunk (16 values / 1024 integer slots as shipped: large enough that the reallocation path practically never runs) is a buggified tuning knob: per run it is replaced by 0/1/2/16 and 0/1/3/8, one run in 40 replays the shipped configuration with more than 1024 integer declarations. Seeded REPL histories (one top-level statement per evaluation: declarations of integer-slot and boxed kinds, address-taking, closures and functions capturing globals, writes directly / through pointers / through closures, bursts of further declarations, parallel short re-declarations, pointer-receiver method calls on globals of named numeric types, a switch as the very first evaluation, read-backs) are checked step by step against a sequential store model (cells, pointers and closures as references to cells); any internal error is a violation.',
    note='Equality with compiled Go for arbitrary statement kinds is a pure function of the program and NOT decided. Re-declarations (same and different kind / slot width) and assignments to function variables called from declared functions are generated; a slot invariant (no two live globals overlap) is checked after every evaluation. The model uses native Go values of the declared kinds, so arithmetic and formatting are Go\'s own.',
    technique='deterministic simulation: buggified tuning knob (slot-array growth) + seeded REPL histories + sequential store reference model'),
  'C17': dict(level='exploration', design='3.8',
    text='The nondeterminism this property depends on - Go map iteration order inside base/dep - is put behind a seam at check time: every range over a map in the package is rewritten on a scratch copy (go/packages + go/ast) into a loop over keys permuted by the choice source and compiled in with go build -overlay (/repo untouched, regenerated from the current tree on every run). Seeded dependency graphs over 2..9 (thorough 12) declarations are rendered as source with references at several block depths and shadowing parameters/results/locals, and sorted under 1 canonical + 12 seeded iteration orders. Oracles: identical output under all orders; every name once; dependencies (known by construction) first or a forward declaration of a cycle type; exact reference order for acyclic inputs; phase split; declaration-loop error iff a cycle without types.',
-   note='Free names are known by construction of the generator; no second free-variable analysis is trusted. Single-name declarations only (no multi-name var, iota groups, methods). For type cycles only determinism and ordering constraints are checked.',
+   note='Free names are known by construction of the generator; no second free-variable analysis is trusted. Multi-name var specs with explicit types, field-name / literal-key / label decoys are generated; iota groups and methods are not. For type cycles only determinism and ordering constraints are checked.',
    technique='deterministic simulation: build-time seam over map iteration order (overlay rewrite) + seeded iteration schedules + reference order known by construction'),
  'C19': dict(level='exploration', design='3.9',
    text='A second interactive party is simulated: at every debugger stop a simulated user draws the next command (step/next/finish/continue and abbreviations, empty line = repeat, print, vars, backtrace, unknown command, end of input) from the choice list, through (A) the real fast/debug.Debugger reading a simulated command stream and writing to a captured Stdout or (B) a direct fast.Debugger implementation. The statement seam records every executed statement (call depth, line) of the same run as ground truth; a stop-rule model replays stops, commands and statements in order and must agree; the program\'s results must equal the undebugged run and the native twin (transparency); runaway sessions are cut by a statement budget and reported.',
@@ -42,7 +42,7 @@ claimed = {
    note='Templates are a fixed alphabet (about 75 statement shapes, including lines longer than the buffer of bufio); standard-library files are not used. A line source returning several lines per call is outside the Readline contract both real implementations follow and is not simulated. After an injected non-EOF error nothing is required of the rest of the stream.',
    technique='deterministic simulation: simulated byte/line source with seeded fragmentation and injected EOF/read errors + boundaries known by construction'),
  'C27': dict(level='exploration', design='3.11',
-   text='Partial: decides clause 1 (positions across chunks). Seeded multi-chunk sources (declarations with continuation lines, multi-line raw strings, groups, separated by seeded runs of blank lines and comments) optionally preceded by a package clause and by chunks that fail (compile error, syntax error, run-time panic), carry one marker at a constructed line:column - undefined identifier (compile error), invalid token (parse error), or a "break" statement reached under the real debugger (stop position). They are evaluated through EvalReader over a fragmenting byte source, EvalFile on a real file, and the REPL loop over a line source; the file:line:col in the captured report must equal the constructed position under every delivery and any number of preceding chunks.',
+   text='Partial: decides clause 1 (positions across chunks). Seeded multi-chunk sources (declarations with continuation lines, multi-line raw strings, groups, separated by seeded runs of blank lines and comments) optionally preceded by a package clause and by chunks that fail (compile error, syntax error, run-time panic), carry one marker at a constructed line:column - undefined identifier (compile error), invalid token (parse error), or a "break" statement reached under the real debugger (stop position); one run in four of the EvalReader / EvalFile entries first abandons another source midway on the same interpreter. They are evaluated through EvalReader over a fragmenting byte source, EvalFile on a real file, and the REPL loop over a line source; the file:line:col in the captured report must equal the constructed position under every delivery and any number of preceding chunks.',
    note='Clause 2 (file-set arithmetic with a starting line offset) is a pure function and NOT decided here; panic locations are not reported with positions by the interpreter at all. Only error kinds whose offending token is unambiguous are used.',
    technique='deterministic simulation: simulated byte/line source driving EvalReader/EvalFile/REPL + positions known by construction'),
  'C33': dict(level='exploration', design='3.2',
